@@ -1020,5 +1020,8 @@ func digestOne(c *Check, seed uint64, tier string) {
 	if d := os.Getenv("VERIF_DUMPLOG"); d != "" {
 		os.MkdirAll(d, 0755)
 		os.WriteFile(filepath.Join(d, fmt.Sprintf("%d-%016x-%d.log", seed, h, os.Getpid())), []byte(strings.Join(o.Log, "\n")), 0644)
+		if len(ytrace) > 0 {
+			os.WriteFile(filepath.Join(d, fmt.Sprintf("%d-%016x-%d.ytrace", seed, h, os.Getpid())), []byte(strings.Join(ytrace, "\n")), 0644)
+		}
 	}
 }
